@@ -554,10 +554,16 @@ def _array_contract_expression_with_constants(
 
     # trace through, and then get function with constants folded
     lz_output = full_expr(*lazy_variables_and_constants)
-    fn = lz_output.get_function(lazy_variables, fold_constants=True)
+    if lazy_variables:
+        fn = lz_output.get_function(lazy_variables, fold_constants=True)
+    else:
+        # every input is constant, the contraction has already been performed
+
+        def fn():
+            return lz_output
 
     # now we can jit
-    if autojit:
+    if autojit and lazy_variables:
         from autoray import autojit as _autojit
 
         fn = _autojit(fn)
@@ -754,7 +760,7 @@ def array_contract_expression(
         inputs, output, size_dict, shapes, optimize, canonicalize
     )
 
-    if constants is not None:
+    if constants:
         # handle constants specially with autoray
         return _array_contract_expression_with_constants(
             inputs,
